@@ -80,6 +80,7 @@ def run(chk):
     chk.notes["frames_delivered"] = delivered
     for r in res[:3]:
         chk.sample({"relay": r["relay"], "negotiated": r["negotiated"], "handshake": str(r["handshake"])})
+    W.report_client_model(chk, res, "C11")
     if not chk.violations and not proof_ok:
         chk.violation("proof obligation no longer checks: " + chk.proof_detail,
                       ["# theorems of Props/C11.lean: " + ", ".join(vlib.prop_theorems("C11")), "# " + chk.proof_detail.replace("\n", "\n# ")], no_input=True)
